@@ -168,6 +168,8 @@ def run_case(p, cj):
     if not symmetric(L, N):
         p.nontrivial((api, N, tuple(L), conn))
     prep = QuantumCircuit(N)
+    if seed % 2:
+        prep.metadata = {"owner": "caller", "register": N}     # legal: the caller's circuit carries its own metadata
     allowed = None
     if api == "tomography":
         ok, circs = call(full_state_tomography_circuits, prep, conn, Larg)
